@@ -13,7 +13,7 @@ P = {
                  "C14_default_rule_meets_spec", "C14_pipeline_language", "C14_reading_in_scope",
                  "C14_history_meets_spec", "C14_ruleset_all_or_nothing", "C14_ruleset_one_bad_rejects", "C14_ruleset_meets_spec",
                  "C14_trace_success", "C14_trace_failure", "C14_stage_kinds",
-                 "C14_corr_implies_prop", "C14_corr_implies_prop_set", "C14_prop_sound", "C14_nonvacuous"],
+                 "C14_corr_implies_prop", "C14_corr_implies_prop_set", "C14_prop_sound", "C14_prop_rejects_bad_default", "C14_nonvacuous"],
     "streams": [{
         "name": "factory", "pkg": "./internal/rules", "test": "TestVerifC14", "overlay": _OVERLAY,
         "eval_module": "Run.Eval_C14", "check_term": "check",
@@ -87,7 +87,8 @@ P = {
                   "them only the model's reading (first key in a fixed order, condition ignored) is characterised "
                   "(C14_pipeline_language) and compared, the property predicate demands nothing. The statement does not say that "
                   "nothing else is rejected: over-rejection (e.g. the parser refusing a rule without `execute`, documented as "
-                  "mandatory) shows as a correspondence difference, never as a property failure. Error kinds/texts are not "
+                  "mandatory) shows as a correspondence difference, never as a property failure. A malformed default rule is a malformed "
+                  "rule: a factory that exists over a default rule the specification rejects fails the predicate. Error kinds/texts are not "
                   "compared (histogram only). Trusted: Coq kernel/vm_compute; the harness (generators, stub mechanisms, probe "
                   "contexts, Gallina rendering); the catalogue/override oracle and the CEL truth table as listed under trusted. "
                   "No finding is open; C14-F1 was repaired by 97aaffa (history lemma F1_pinned_refuted in C14/Proofs.v, not an "
